@@ -75,7 +75,7 @@ Definition osnap_eqb (a b : osnap) : bool :=
 
 (* the calls the model predicts for the events of one request (oldest first): entry function
    calls and code fetches exactly; template/menu lookups are checked for their language *)
-Fixpoint firstn_rev_new (n : nat) (l : list ev) : list ev := rev (firstn n l).
+Definition firstn_rev_new (n : nat) (l : list ev) : list ev := rev (firstn n l).
 Definition new_events (before after : list ev) : list ev :=
   firstn_rev_new (List.length after - List.length before) after.
 
